@@ -90,7 +90,7 @@ func drawWorlds(x *runner.X, n int, withGsfa bool, small bool, allowSplitTx bool
 			return nil
 		}
 		out = append(out, &builtWorld{w: w, cfg: cfg, dir: dir})
-		x.Digest(w.Describe())
+		x.Digest(w.Describe(), dsim.HashBytes(w.CAR))
 	}
 	return out
 }
